@@ -239,17 +239,20 @@ template <int N> static void times_tuple(PTRef const * a) {
         if (ref_ok(r) && isConstNode(r) && (int)r.x >= U) { VWITNESS("constants-folded-to-new-constant"); }
     }
 }
-// all pairs
-extern "C" void h_mkTimes2() {
+// all pairs (first factor in [LO,HI), second factor any arithmetic node)
+template <int LO, int HI> static void times2() {
     build_universe();
-    for (int i = 0; i < N_ARITH; i++) for (int j = 0; j < N_ARITH; j++) { PTRef a[2] = {PTRef{(uint32_t)i}, PTRef{(uint32_t)j}}; times_tuple<2>(a); }
+    for (int i = LO; i < HI; i++) for (int j = 0; j < N_ARITH; j++) { PTRef a[2] = {PTRef{(uint32_t)i}, PTRef{(uint32_t)j}}; times_tuple<2>(a); }
 }
+extern "C" void h_mkTimes2_a() { times2<0, 5>(); }
+extern "C" void h_mkTimes2_b() { times2<5, 10>(); }
+extern "C" void h_mkTimes2_c() { times2<10, 14>(); }
 // all triples with a given first factor
-template <int A0> static void times3() {
+template <int A0, int LO, int HI> static void times3() {
     build_universe();
-    for (int i = 0; i < N_ARITH; i++) for (int j = 0; j < N_ARITH; j++) { PTRef a[3] = {PTRef{(uint32_t)A0}, PTRef{(uint32_t)i}, PTRef{(uint32_t)j}}; times_tuple<3>(a); }
+    for (int i = LO; i < HI; i++) for (int j = 0; j < N_ARITH; j++) { PTRef a[3] = {PTRef{(uint32_t)A0}, PTRef{(uint32_t)i}, PTRef{(uint32_t)j}}; times_tuple<3>(a); }
 }
-#define T3(k) extern "C" void h_mkTimes3_##k() { times3<k>(); }
+#define T3(k) extern "C" void h_mkTimes3_##k##_a() { times3<k, 0, 7>(); } extern "C" void h_mkTimes3_##k##_b() { times3<k, 7, 14>(); }
 T3(0) T3(1) T3(2) T3(3) T3(4) T3(5) T3(6) T3(7) T3(8) T3(9) T3(10) T3(11) T3(12) T3(13)
 // the defect repaired by ce45400 as a single tuple: (* 2 (+ x 1) (+ y 1)), in every argument order
 extern "C" void h_mkTimes3_two_sums() {
